@@ -243,7 +243,7 @@ class C08(AdapterProp):
             for _ in range(rng.randrange(1, 9)):
                 x = rng.random()
                 if x < 0.7:
-                    ops.append(("R", rng.choice([0, 0, 1, 2, 3, 8, 8, 300] + ([5000] if tier == "thorough" or rng.random() < 0.1 else []))))
+                    ops.append(("R", rng.choice([0, 0, 1, 2, 3, 8, 8, 300] + ([5000] if rng.random() < 0.1 else []))))
                 elif x < 0.9:
                     ops.append(("W", [rng.randrange(256) for _ in range(rng.randrange(0, 5))]))
                 else:
@@ -298,7 +298,7 @@ class C09(AdapterProp):
             for _ in range(rng.randrange(1, 9)):
                 x = rng.random()
                 if x < 0.7:
-                    ops.append(("R", rng.choice([0, 1, 2, 3, 8, 8, 16, 300] + ([5000, 65536] if tier == "thorough" else [5000] if rng.random() < 0.1 else []))))
+                    ops.append(("R", rng.choice([0, 1, 2, 3, 8, 8, 16, 300] + ([5000] if rng.random() < 0.1 else []) + ([65536] if tier == "thorough" and rng.random() < 0.03 else []))))
                 elif x < 0.9:
                     ops.append(("W", [rng.randrange(256) for _ in range(rng.randrange(0, 5))]))
                 else:
